@@ -26,7 +26,15 @@ type StoreCase struct {
 	Prefill int         `json:"prefill,omitempty"` // > 0: the store first receives this many filler keys through one Merge (size-dependent behaviour)
 }
 
-var sharedZooLen = zoo.Fixed()
+var sharedZooLen = c14Zoo()
+
+// c14Zoo: the fixed zoo plus values whose dynamic type is the library's own Result (a struct like any other: the
+// store keeps what it is given, through Set and through Merge).
+func c14Zoo() []zoo.Named {
+	return append(zoo.Fixed(),
+		zoo.Named{Name: "result-of-int", V: flyt.NewResult(42)}, zoo.Named{Name: "result-of-slice", V: flyt.NewResult([]int{1})},
+		zoo.Named{Name: "error-result", V: flyt.NewErrorResult(fmt.Errorf("e"))}, zoo.Named{Name: "zero-result", V: flyt.Result{}}, zoo.Named{Name: "ptr-result", V: &flyt.Result{}})
+}
 
 var storeKeys = []string{"", "a", "b", "ключ", "k\x00z", "日本語", "a b", "A", "é", "é"}
 
@@ -43,7 +51,7 @@ type snapshot struct {
 func genChurnCase(c *Cfg, i int) *StoreCase {
 	rg := c.Rng("c14churn", i)
 	cs := &StoreCase{Family: "churn"}
-	nz := len(zoo.Fixed())
+	nz := len(c14Zoo())
 	live := []int{}
 	n := 120 + rg.IntN(81)
 	for j := 0; j < n; j++ {
@@ -82,7 +90,7 @@ func keyName(i int) string {
 func genStoreCase(c *Cfg, i int, maxLen int) *StoreCase {
 	rg := c.Rng("c14", i)
 	n := 1 + rg.IntN(maxLen)
-	nz := len(zoo.Fixed())
+	nz := len(c14Zoo())
 	cs := &StoreCase{Family: "sequence"}
 	ops := []string{"set", "set", "set", "delete", "delete-missing", "merge", "merge-nil", "merge-own-getall", "merge-snapshot", "clear", "set-after-clear", "getall", "keys", "snap-set", "snap-delete", "keys-overwrite", "set-nil", "read-typed", "read-typed"}
 	for j := 0; j < n; j++ {
@@ -106,7 +114,7 @@ func genStoreCase(c *Cfg, i int, maxLen int) *StoreCase {
 
 // runStoreCase executes the sequence in lock-step with a reference map and returns the first discrepancy.
 func runStoreCase(cs *StoreCase) (key, detail string, stats map[string]int) {
-	return runStoreCaseWith(cs, zoo.Fixed(), nil)
+	return runStoreCaseWith(cs, c14Zoo(), nil)
 }
 
 // storeProbe is called after every step with the store and the reference map.
@@ -123,7 +131,7 @@ func runStoreCaseGuarded(cs *StoreCase) (key, detail string, stats map[string]in
 	prog.Store(-1)
 	var k, d string
 	var st map[string]int
-	stuck, state, inc := guarded(10*time.Second, func() { k, d, st = runStoreCaseProg(cs, zoo.Fixed(), nil, &prog) })
+	stuck, state, inc := guarded(10*time.Second, func() { k, d, st = runStoreCaseProg(cs, c14Zoo(), nil, &prog) })
 	if stuck {
 		si := int(prog.Load())
 		op := "?"
@@ -144,7 +152,7 @@ func runStoreCaseProg(cs *StoreCase, z []zoo.Named, probe storeProbe, prog *atom
 	// overwrite with an equal-looking value is still an overwrite
 	var z2 []zoo.Named
 	if len(z) == len(sharedZooLen) {
-		z2 = zoo.Fixed()
+		z2 = c14Zoo()
 	}
 	s := flyt.NewSharedStore()
 	ref := map[string]any{}
@@ -396,7 +404,7 @@ func runC14(c *Cfg) {
 			cs = genChurnCase(c, i)
 		}
 		if i%64 == 37 {
-			cs = signedZeroCase(zoo.Fixed(), i/64*40+7)
+			cs = signedZeroCase(c14Zoo(), i/64*40+7)
 		}
 		if i%64 == 21 {
 			cs = genStoreCase(c, i, 60)
